@@ -7,6 +7,7 @@ periods (and every smoothing parameter, every list of constraint positions).
 import IrisVerif.Props.GenTieCore
 import IrisVerif.Model.HP
 import IrisVerif.Generated.EllOneGen
+import IrisVerif.Generated.HpGen
 
 namespace IrisVerif.GenTieC14
 
@@ -96,14 +97,15 @@ theorem model_eq_generated_lonfD_second (n : Nat) :
   have hD1c : D1.cols = n := by rw [← hD1]; exact hdc
   have hD1g : ∀ i j, i < n - 2 → j < n → D1.get i j = if j = i then 1 else if j = i + 1 then -2 else 0 := by
     intro i j hi' hj'
-    rw [← hD1, get_setSlice_colsFrom d _ 1 1 rfl i j (by omega) (by omega)]
+    rw [← hD1, get_setSlice_colsFrom d _ (1 : Int) 1 rfl i j (by omega) (by omega)]
     by_cases h1 : 1 ≤ j
     · rw [if_pos h1, get_sub]
       simp only [slice_rows, slice_cols, lo, hi, sliceIdx_one, hdr, hdc, Nat.sub_zero]
       have hm : min 1 n = 1 := by omega
-      rw [hm, if_pos ⟨hi', by omega⟩, get_slice_colsFrom d 1 1 rfl i (j - 1) (by omega) (by omega), get_smul]
+      have hc1 : (i < n - 2 ∧ j - 1 < n - 1) := ⟨hi', by omega⟩
+      rw [hm, if_pos hc1, get_slice_colsFrom d 1 1 rfl i (j - 1) (by omega) (by omega), get_smul]
       simp only [slice_rows, slice_cols, lo, hi, sliceIdx_neg_one, hdr, hdc, Nat.sub_zero]
-      rw [if_pos ⟨hi', by omega⟩, get_slice_colsUpToNeg d _ 1 rfl (by omega) i (j - 1) (by omega) (by omega),
+      rw [if_pos hc1, get_slice_colsUpToNeg d (-(1 : Int)) 1 rfl (by omega) i (j - 1) (by omega) (by omega),
         hdg i _ hi' (by omega), hdg i _ hi' (by omega)]
       split_ifs <;> first | rfl | (exfalso; omega) | norm_num
     · rw [if_neg h1, hdg i j hi' hj']
@@ -114,13 +116,14 @@ theorem model_eq_generated_lonfD_second (n : Nat) :
     (show _ = n - 2 from hD1r) (show _ = n from hD1c)]
   apply ofFn_congr
   intro i j hi' hj'
-  rw [get_setSlice_colsFrom D1 _ 2 2 rfl i j (by omega) (by omega)]
+  rw [get_setSlice_colsFrom D1 _ (2 : Int) 2 rfl i j (by omega) (by omega)]
   by_cases h2 : 2 ≤ j
   · rw [if_pos h2, get_add]
     simp only [slice_rows, slice_cols, lo, hi, sliceIdx_two, hD1r, hD1c, Nat.sub_zero]
     have hm : min 2 n = 2 := by omega
-    rw [hm, if_pos ⟨hi', by omega⟩, get_slice_colsFrom D1 2 2 rfl i (j - 2) (by omega) (by omega),
-      get_slice_colsUpToNeg d _ 2 rfl (by omega) i (j - 2) (by omega) (by omega),
+    have hc2 : (i < n - 2 ∧ j - 2 < n - 2) := ⟨hi', by omega⟩
+    rw [hm, if_pos hc2, get_slice_colsFrom D1 2 2 rfl i (j - 2) (by omega) (by omega),
+      get_slice_colsUpToNeg d (-(2 : Int)) 2 rfl (by omega) i (j - 2) (by omega) (by omega),
       hD1g i _ hi' (by omega), hdg i _ hi' (by omega)]
     split_ifs <;> first | rfl | (exfalso; omega) | norm_num
   · rw [if_neg h2, hD1g i j hi' hj']
@@ -131,5 +134,218 @@ theorem generated_d_first (n : Nat) :
     (Gen.EllOne._first_order_matrix_setup (n : Int)).1 = QMat.ofFn (n - 1) n (fun i j => if i = j then 1 else 0) := by
   unfold Gen.EllOne._first_order_matrix_setup
   exact eye2_sub_one n
+
+/-! ## `_hp.py`: the plain filter matrix `F = λ KᵀK` -/
+
+/-- the two loops of `_create_plain_filter_matrix` build the model's second-difference matrix `K` -/
+theorem generated_K (n : Nat) :
+    (List.range (n - 2)).foldl (fun (K : QMat) (i : Nat) => QMatNp.setEntry K (i : Int) ((i : Int) + 1) (-2))
+      ((List.range (n - 2)).foldl (fun (K : QMat) (i : Nat) =>
+          QMatNp.setEntry (QMatNp.setEntry K (i : Int) (i : Int) 1) (i : Int) ((i : Int) + 2) 1) (QMat.zero (n - 2) n))
+      = hpK n := by
+  have l1 := Is.foldl_rows (R := n - 2) (C := n)
+    (fun (K : QMat) (i : Nat) => QMatNp.setEntry (QMatNp.setEntry K (i : Int) (i : Int) 1) (i : Int) ((i : Int) + 2) 1)
+    (fun i c old => if c = i + 2 then 1 else if c = i then 1 else old)
+    (by
+      intro K f i hi' hK
+      have e : ((i : Int) + 2) = ((i + 2 : Nat) : Int) := by omega
+      rw [e]
+      refine ((hK.setEntry i i 1 hi' (by omega)).setEntry i (i + 2) 1 hi' (by omega)).congr (fun r c _ _ => ?_)
+      by_cases hr : r = i <;> simp [hr])
+    (QMat.zero (n - 2) n) _ (Is.zero _ _) (n - 2) (Nat.le_refl _)
+  have l2 := Is.foldl_rows (R := n - 2) (C := n)
+    (fun (K : QMat) (i : Nat) => QMatNp.setEntry K (i : Int) ((i : Int) + 1) (-2))
+    (fun i c old => if c = i + 1 then -2 else old)
+    (by
+      intro K f i hi' hK
+      have e : ((i : Int) + 1) = ((i + 1 : Nat) : Int) := by omega
+      rw [e]
+      refine (hK.setEntry i (i + 1) (-2) hi' (by omega)).congr (fun r c _ _ => ?_)
+      by_cases hr : r = i <;> simp [hr])
+    _ _ l1 (n - 2) (Nat.le_refl _)
+  rw [l2.eq_ofFn]
+  unfold hpK kEntry
+  apply ofFn_congr
+  intro i j hi' hj'
+  simp only [hi', if_true]
+  split_ifs <;> first | rfl | (exfalso; omega)
+
+/-- **`_create_plain_filter_matrix`**: the method stores the model's `plainF n λ` in `self._F` and changes nothing else,
+for every number of periods and every smoothing parameter -/
+theorem model_eq_generated_plainF (n : Nat) (self : Gen.Hp.HPFilter) (hn : self._num_periods = (n : Int)) :
+    Gen.Hp.HPFilter._create_plain_filter_matrix self = { self with _F := plainF n self._smooth } := by
+  unfold Gen.Hp.HPFilter._create_plain_filter_matrix
+  simp only []
+  rw [hn]
+  have h2 : ((n : Int) - 2) = ((n : Int) - ((2 : Nat) : Int)) := rfl
+  rw [h2, foldl_range_sub, foldl_range_sub, zeros_sub_left, generated_K]
+  rfl
+
+/-! ## `_hp.py`: level and change constraints -/
+
+/-- the loop of `_add_level_constraints`: `extra_rows[i, j] = 1; extra_variants[j, i] = 1` for `i, j in enumerate(lw)` -/
+theorem generated_level_loop (n : Nat) (lw : List Nat) (hlw : ∀ i, i < lw.length → lw.getD i 0 < n) :
+    (QMatNp.enumerate (lw.map Int.ofNat)).foldl (fun (st : QMat × QMat) (p : Int × Int) =>
+        (QMatNp.setEntry st.1 p.1 p.2 1, QMatNp.setEntry st.2 p.2 p.1 1))
+      (QMat.zero lw.length n, QMat.zero (n + lw.length) lw.length)
+    = (QMat.ofFn lw.length n (fun i j => levelPat (lw.getD i 0) j),
+       QMat.ofFn (n + lw.length) lw.length (fun r i => levelPat (lw.getD i 0) r)) := by
+  rw [foldl_enumerate _ 0, List.length_map]
+  simp only [getD_map_ofNat]
+  rw [foldl_pair (List.range lw.length)
+    (fun (K : QMat) (i : Nat) => QMatNp.setEntry K (i : Int) ((lw.getD i 0 : Nat) : Int) 1)
+    (fun (K : QMat) (i : Nat) => QMatNp.setEntry K ((lw.getD i 0 : Nat) : Int) (i : Int) 1)]
+  have l1 := Is.foldl_rows (R := lw.length) (C := n)
+    (fun (K : QMat) (i : Nat) => QMatNp.setEntry K (i : Int) ((lw.getD i 0 : Nat) : Int) 1)
+    (fun i c old => if c = lw.getD i 0 then 1 else old)
+    (by
+      intro K f i hi' hK
+      refine (hK.setEntry i (lw.getD i 0) 1 hi' (hlw i hi')).congr (fun r c _ _ => ?_)
+      by_cases hr : r = i <;> simp [hr])
+    _ _ (Is.zero _ _) lw.length (Nat.le_refl _)
+  have l2 := Is.foldl_cols (R := n + lw.length) (C := lw.length)
+    (fun (K : QMat) (i : Nat) => QMatNp.setEntry K ((lw.getD i 0 : Nat) : Int) (i : Int) 1)
+    (fun i r old => if r = lw.getD i 0 then 1 else old)
+    (by
+      intro K f i hi' hK
+      refine (hK.setEntry (lw.getD i 0) i 1 (by have := hlw i hi'; omega) hi').congr (fun r c _ _ => ?_)
+      by_cases hc : c = i <;> simp [hc])
+    _ _ (Is.zero _ _) lw.length (Nat.le_refl _)
+  rw [l1.eq_ofFn, l2.eq_ofFn]
+  congr 1
+  · apply ofFn_congr
+    intro i j hi' _
+    simp only [hi', if_true, levelPat]
+  · apply ofFn_congr
+    intro r i _ hi'
+    simp only [hi', if_true, levelPat]
+
+/-- **`_add_level_constraints`**: the method borders `self._F` exactly as the model's `addLevel` does and adds the number
+of constraints to `_num_extra_rows`, for every list of in-range positions -/
+theorem model_eq_generated_addLevel (n : Nat) (self : Gen.Hp.HPFilter) (hn : self._num_periods = (n : Int))
+    (lw : List Nat) (hlw : ∀ i, i < lw.length → lw.getD i 0 < n) :
+    Gen.Hp.HPFilter._add_level_constraints self (lw.map Int.ofNat)
+      = { self with _F := addLevel n self._F lw, _num_extra_rows := self._num_extra_rows + (lw.length : Int) } := by
+  unfold Gen.Hp.HPFilter._add_level_constraints addLevel
+  by_cases he : lw.isEmpty = true
+  · have : lw = [] := List.isEmpty_iff.1 he
+    subst this
+    simp
+  · have he' : ¬ ((lw.map Int.ofNat).isEmpty = true) := by simpa using he
+    simp only [he, he', if_false, Bool.false_eq_true]
+    simp only [hn, List.length_map, zeros_natCast]
+    have e : ((n : Int) + (lw.length : Int)) = ((n + lw.length : Nat) : Int) := by omega
+    rw [e, zeros_natCast, generated_level_loop n lw hlw]
+
+/-- the loop of `_add_change_constraints` -/
+theorem generated_change_loop (R C : Nat) (cw : List Nat)
+    (hcw : ∀ i, i < cw.length → 1 ≤ cw.getD i 0 ∧ cw.getD i 0 < C ∧ cw.getD i 0 < R + cw.length) :
+    (QMatNp.enumerate (cw.map Int.ofNat)).foldl (fun (st : QMat × QMat) (p : Int × Int) =>
+        (QMatNp.setEntry (QMatNp.setEntry st.1 p.1 (p.2 - 1) (-1)) p.1 p.2 1,
+         QMatNp.setEntry (QMatNp.setEntry st.2 (p.2 - 1) p.1 (-1)) p.2 p.1 1))
+      (QMat.zero cw.length C, QMat.zero (R + cw.length) cw.length)
+    = (QMat.ofFn cw.length C (fun i c => changePat (cw.getD i 0) c),
+       QMat.ofFn (R + cw.length) cw.length (fun r i => changePat (cw.getD i 0) r)) := by
+  rw [foldl_enumerate _ 0, List.length_map]
+  simp only [getD_map_ofNat]
+  rw [foldl_pair (List.range cw.length)
+    (fun (K : QMat) (i : Nat) => QMatNp.setEntry (QMatNp.setEntry K (i : Int) (((cw.getD i 0 : Nat) : Int) - 1) (-1))
+      (i : Int) ((cw.getD i 0 : Nat) : Int) 1)
+    (fun (K : QMat) (i : Nat) => QMatNp.setEntry (QMatNp.setEntry K (((cw.getD i 0 : Nat) : Int) - 1) (i : Int) (-1))
+      ((cw.getD i 0 : Nat) : Int) (i : Int) 1)]
+  have l1 := Is.foldl_rows (R := cw.length) (C := C)
+    (fun (K : QMat) (i : Nat) => QMatNp.setEntry (QMatNp.setEntry K (i : Int) (((cw.getD i 0 : Nat) : Int) - 1) (-1))
+      (i : Int) ((cw.getD i 0 : Nat) : Int) 1)
+    (fun i c old => if c = cw.getD i 0 then 1 else if c = cw.getD i 0 - 1 then -1 else old)
+    (by
+      intro K f i hi' hK
+      obtain ⟨h1, h2, _⟩ := hcw i hi'
+      have e : (((cw.getD i 0 : Nat) : Int) - 1) = ((cw.getD i 0 - 1 : Nat) : Int) := by omega
+      rw [e]
+      refine ((hK.setEntry i (cw.getD i 0 - 1) (-1) hi' (by omega)).setEntry i (cw.getD i 0) 1 hi' h2).congr
+        (fun r c _ _ => ?_)
+      by_cases hr : r = i <;> simp [hr])
+    _ _ (Is.zero _ _) cw.length (Nat.le_refl _)
+  have l2 := Is.foldl_cols (R := R + cw.length) (C := cw.length)
+    (fun (K : QMat) (i : Nat) => QMatNp.setEntry (QMatNp.setEntry K (((cw.getD i 0 : Nat) : Int) - 1) (i : Int) (-1))
+      ((cw.getD i 0 : Nat) : Int) (i : Int) 1)
+    (fun i r old => if r = cw.getD i 0 then 1 else if r = cw.getD i 0 - 1 then -1 else old)
+    (by
+      intro K f i hi' hK
+      obtain ⟨h1, _, h3⟩ := hcw i hi'
+      have e : (((cw.getD i 0 : Nat) : Int) - 1) = ((cw.getD i 0 - 1 : Nat) : Int) := by omega
+      rw [e]
+      refine ((hK.setEntry (cw.getD i 0 - 1) i (-1) (by omega) hi').setEntry (cw.getD i 0) i 1 h3 hi').congr
+        (fun r c _ _ => ?_)
+      by_cases hc : c = i <;> simp [hc])
+    _ _ (Is.zero _ _) cw.length (Nat.le_refl _)
+  rw [l1.eq_ofFn, l2.eq_ofFn]
+  congr 1
+  · apply ofFn_congr
+    intro i j hi' _
+    obtain ⟨h1, _, _⟩ := hcw i hi'
+    simp only [hi', if_true, changePat]
+    split_ifs <;> first | rfl | (exfalso; omega)
+  · apply ofFn_congr
+    intro r i _ hi'
+    obtain ⟨h1, _, _⟩ := hcw i hi'
+    simp only [hi', if_true, changePat]
+    split_ifs <;> first | rfl | (exfalso; omega)
+
+/-- **`_add_change_constraints`**: the method borders `self._F` exactly as the model's `addChange` does and adds the
+number of constraints to `_num_extra_rows`, for every list of positions `1 ≤ j` inside the current matrix (position 0
+is removed beforehand by `_remove_first_date_change`; with `j = 0` numpy's index `-1` would wrap around) -/
+theorem model_eq_generated_addChange (self : Gen.Hp.HPFilter) (cw : List Nat)
+    (hcw : ∀ i, i < cw.length → 1 ≤ cw.getD i 0 ∧ cw.getD i 0 < self._F.cols ∧ cw.getD i 0 < self._F.rows + cw.length) :
+    Gen.Hp.HPFilter._add_change_constraints self (cw.map Int.ofNat)
+      = { self with _F := addChange self._F cw, _num_extra_rows := self._num_extra_rows + (cw.length : Int) } := by
+  unfold Gen.Hp.HPFilter._add_change_constraints addChange
+  by_cases he : cw.isEmpty = true
+  · have : cw = [] := List.isEmpty_iff.1 he
+    subst this
+    simp
+  · have he' : ¬ ((cw.map Int.ofNat).isEmpty = true) := by simpa using he
+    simp only [he, he', if_false, Bool.false_eq_true]
+    simp only [List.length_map, shape_fst, shape_snd, zeros_natCast]
+    have e : ((self._F.rows : Int) + (cw.length : Int)) = ((self._F.rows + cw.length : Nat) : Int) := by omega
+    rw [e, zeros_natCast, generated_change_loop self._F.rows self._F.cols cw hcw]
+
+
+/-- **the sequence of `__init__`** (`_create_plain_filter_matrix`, `_add_level_constraints`, `_add_change_constraints`;
+`__init__` itself, which only stores its arguments and calls the three methods, is not regenerated): the matrix left in
+`self._F` is the model's `initF` -/
+theorem model_eq_generated_initF (n : Nat) (self : Gen.Hp.HPFilter) (hn : self._num_periods = (n : Int))
+    (lw cw : List Nat) (hlw : ∀ i, i < lw.length → lw.getD i 0 < n)
+    (hcw : ∀ i, i < cw.length → 1 ≤ cw.getD i 0 ∧ cw.getD i 0 < (addLevel n (plainF n self._smooth) lw).cols ∧
+      cw.getD i 0 < (addLevel n (plainF n self._smooth) lw).rows + cw.length) :
+    (Gen.Hp.HPFilter._add_change_constraints
+      (Gen.Hp.HPFilter._add_level_constraints (Gen.Hp.HPFilter._create_plain_filter_matrix self) (lw.map Int.ofNat))
+      (cw.map Int.ofNat))._F = initF n self._smooth lw cw := by
+  rw [model_eq_generated_plainF n self hn,
+    model_eq_generated_addLevel n { self with _F := plainF n self._smooth } hn lw hlw,
+    model_eq_generated_addChange _ cw hcw]
+  rfl
+
+/-! ## non-vacuity (kernel evaluation): a filter over 5 periods with a level constraint at 1 and a change constraint at 3 -/
+
+example : (∀ i, i < [1].length → [1].getD i 0 < 5) ∧
+    (∀ i, i < [3].length → 1 ≤ [3].getD i 0 ∧ [3].getD i 0 < (addLevel 5 (plainF 5 1600) [1]).cols ∧
+      [3].getD i 0 < (addLevel 5 (plainF 5 1600) [1]).rows + [3].length) := by
+  constructor
+  · intro i hi'; have : i = 0 := by simpa using hi'
+    subst this; decide
+  · intro i hi'; have : i = 0 := by simpa using hi'
+    subst this; decide +kernel
+
+theorem ex_initF_agrees :
+    ((Gen.Hp.HPFilter._add_change_constraints (Gen.Hp.HPFilter._add_level_constraints
+        (Gen.Hp.HPFilter._create_plain_filter_matrix ⟨5, 1600, false, 0, QMat.zero 0 0⟩) [1]) [3])._F
+      == initF 5 1600 [1] [3]) = true := by
+  decide +kernel
+
+theorem ex_lonfD_agrees :
+    ((Gen.EllOne._second_order_matrix_setup 6).2 == lonfD 2 6 && (Gen.EllOne._first_order_matrix_setup 6).2 == lonfD 1 6)
+      = true := by
+  decide +kernel
 
 end IrisVerif.GenTieC14
